@@ -98,6 +98,16 @@ def cases_for(c, rng, counter, mode):
     got_names, want_names = [a.name for a in attr.fields(c.cls)], expected_field_names(c)
     if got_names != want_names:
         _order_disc.append((describe(c), got_names, want_names))
+    # the default KIND of every own field is what the declaration says (independent of attr.fields())
+    by_name = {a.name: a for a in attr.fields(c.cls)}
+    for f in c.spec["fields"]:
+        a = by_name.get(f["name"])
+        if a is None:
+            continue
+        got = "none" if a.default is attr.NOTHING else ("factory" if isinstance(a.default, attr.Factory) else "value")
+        want = "none" if f["default"] is None else ("value" if f["default"] == "value" else "factory")
+        if got != want:
+            _order_disc.append((describe(c), ["default of %s: %s (%r)" % (f["name"], got, a.default)], ["declared: %s" % want]))
     spec_t = g.enc_spec(c)
     def_t = g.enc_definition(c)
     try:
@@ -131,7 +141,7 @@ def cases_for(c, rng, counter, mode):
 
 def describe(c):
     s = c.spec
-    d = {k: v for k, v in s.items() if k not in ("base", "_named_sig")}
+    d = {k: (v if k != "fields" else [{kk: vv for kk, vv in f.items()} for f in v]) for k, v in s.items() if k not in ("base", "_named_sig")}
     d["base"] = describe(s["base"]) if s["base"] is not None else None
     return d
 
@@ -177,7 +187,7 @@ def script_tie():
 def extra(tier, seed):
     from .vlib import Discrepancy
     cov_tie = script_tie()
-    out = [Discrepancy({"kind": "field-order"}, "fields(cls) order %r differs from inherited-then-own order %r" % (got, want),
+    out = [Discrepancy({"kind": "field-order"}, "fields(cls) %r differs from the declaration %r" % (got, want),
                        {"input": {"spec": spec}, "got": got, "expected": want}) for spec, got, want in _order_disc[:10]]
     cov = {"runtime_observations": _dist.get("defined", 0)}
     cov.update(cov_tie)
